@@ -39,22 +39,36 @@ pub fn acosh_below_one(class: u8, kx: i32, m: u32) {
     reached();
 }
 
-//@ id=C18 tier=quick to=2400 cfg=std desc="ground on the real code: ln of a NaN-carrying argument is invalid (closes acosh(x<1): its ln argument is NaN), acosh(0.5), acosh(-0.5), acosh(0), acosh(-3) are invalid; atanh(1), atanh(-1), atanh(2), atanh(-1.5) are invalid"
-#[cfg_attr(kani, kani::proof)]
-#[cfg_attr(kani, kani::unwind(17))]
-pub fn c18_domain_ground() {
-    let n = TwoFloat::NAN.ln();
-    assert!(!spec_valid(n));
-    let n2 = gtf(f64::NAN, 0.0).ln();
-    assert!(!spec_valid(n2));
+//@ id=C18 tier=quick to=1800 cfg=std stub=1 stubs="TwoFloat::ln -> domain contract (NaN for a NaN-carrying or non-positive argument: decided on the real code by C15 and c18_ln_of_nan)" desc="ground (pinned) domain points through the real arithmetic and sqrt: acosh(0.5), acosh(-0.5), acosh(0), acosh(-3) are invalid"
+#[cfg_attr(all(kani, feature = "stubs"), kani::proof)]
+#[cfg_attr(all(kani, feature = "stubs"), kani::stub(twofloat::TwoFloat::ln, crate::uf::ln_domain_contract))]
+pub fn c18_domain_ground_acosh() {
     assert!(!spec_valid(gtf(0.5, 0.0).acosh()));
     assert!(!spec_valid(gtf(-0.5, 0.0).acosh()));
     assert!(!spec_valid(gtf(0.0, 0.0).acosh()));
     assert!(!spec_valid(gtf(-3.0, 0.0).acosh()));
+    reached();
+}
+
+//@ id=C18 tier=quick to=1800 cfg=std stub=1 stubs="TwoFloat::ln -> domain contract (as c18_domain_ground_acosh)" desc="ground (pinned) domain points through the real arithmetic (incl. the double-double division): atanh(1), atanh(-1), atanh(2), atanh(-1.5) are invalid"
+#[cfg_attr(all(kani, feature = "stubs"), kani::proof)]
+#[cfg_attr(all(kani, feature = "stubs"), kani::stub(twofloat::TwoFloat::ln, crate::uf::ln_domain_contract))]
+pub fn c18_domain_ground_atanh() {
     assert!(!spec_valid(gtf(1.0, 0.0).atanh()));
     assert!(!spec_valid(gtf(-1.0, 0.0).atanh()));
     assert!(!spec_valid(gtf(2.0, 0.0).atanh()));
     assert!(!spec_valid(gtf(-1.5, 0.0).atanh()));
+    reached();
+}
+
+//@ id=C18 tier=quick to=1800 cfg=std exh=1 stub=1 stubs="TwoFloat::exp -> havoc (values irrelevant: NaN propagates through the real Newton arithmetic)" desc="ln of ANY argument with a NaN high word is invalid (closes acosh(x<1): its ln argument carries a NaN)"
+#[cfg_attr(all(kani, feature = "stubs"), kani::proof)]
+#[cfg_attr(all(kani, feature = "stubs"), kani::stub(twofloat::TwoFloat::exp, crate::uf::havoc_unary))]
+pub fn c18_ln_of_nan() {
+    let x = any_tf();
+    assume(x.hi().is_nan());
+    let r = x.ln();
+    assert!(!spec_valid(r));
     reached();
 }
 
